@@ -103,24 +103,28 @@ CasesQ(z) ==
   \cup {Case("direct-list", [list |-> G!Blk("ul", TCall)], h, "show") : h \in {"none", "tmark"}}
   \cup {Case("direct-string", S(<<"x1", "SP", "[", "[", "y1", "]", "]">>), "none", "show")}
   \cup {Case("direct-node", G!Wrap("B", TCall)[1], h, "show") : h \in {"none", "htmlbold", "tmark"}}
-Inl2(z) == G!Inl(2, {})
-CasesT(z) ==
-  CasesQ(z)
-  \cup UNION {Variants("inline2", Doc(G!Blk(w, x))) : w \in {"para", "cell", "ddef"}, x \in Inl2(z)}
-  \cup UNION {VariantsH("block", Doc(G!Blk(w, x)), Handlers) : w \in G!BlockW, x \in Inl1}
-  \cup UNION {Plain("outer", Doc(G!Outer(ow[1], G!Blk(ow[2], TCall)))) : ow \in {v \in G!OuterW \X G!BlockW : G!InnerOK(v[1], v[2])}}
-  \cup UNION {Plain("text", Doc(G!Blk(w, Around(RTItems[n])))) : n \in RTNames, w \in G!BlockW}
-  \cup UNION {Plain("text2", Doc(G!Blk("para", G!J3(Around(RTItems[n]), <<S(<<"SP">>)>>, RTItems[m])))) : n \in RTNames, m \in RTNames}
-  \cup UNION {Plain("text-in-call", Doc(G!Blk("para", G!Wrap(w, RTItems[n])))) : n \in RTNames, w \in {"T", "N", "P", "A", "B", "H", "L", "E"}}
-  \cup UNION {Variants("empty", Doc(G!Blk(w, <<e>>))) : e \in G!EmptyCalls, w \in {"para", "ul", "cell"}}
-Cases(z) == IF Tier = "Q" THEN CasesQ(z) ELSE CasesT(z)
-
-(* ---------------- generator ---------------- *)
-VARIABLES case, done
 \* (any cheap function of the case will do to share the cases out)
 Size(c) == NCallsL(AsList(c.x)) + Cardinality(U!KindsInKids(AsList(c.x))) + Len(c.fam)
            + (CHOOSE k \in 1..6 : <<"none", "self", "tmark", "linktext", "htmlbold", "droparg">>[k] = c.h)
-Init == case \in {c \in Cases(0) : Size(c) % Parts = Part} /\ done = FALSE
+Inl2(z) == G!Inl(2, {})
+\* the thorough universe, family by family (a TLC run takes the families k with k % Parts = Part)
+NFam == 10
+FamT(k) ==
+  CASE k = 1 -> CasesQ(0)
+    [] k \in 2..6 -> LET w == <<"", "para", "cell", "ddef", "ul", "caption">>[k] IN
+                     UNION {Variants("inline2", Doc(G!Blk(w, x))) : x \in Inl2(0)}
+    [] k = 7 -> UNION {VariantsH("block", Doc(G!Blk(w, x)), Handlers) : w \in G!BlockW, x \in Inl1}
+    [] k = 8 -> UNION {Plain("outer", Doc(G!Outer(ow[1], G!Blk(ow[2], TCall)))) : ow \in {v \in G!OuterW \X G!BlockW : G!InnerOK(v[1], v[2])}}
+                \cup UNION {Plain("text", Doc(G!Blk(w, Around(RTItems[n])))) : n \in RTNames, w \in G!BlockW}
+    [] k = 9 -> UNION {Plain("text2", Doc(G!Blk("para", G!J3(Around(RTItems[n]), <<S(<<"SP">>)>>, RTItems[m])))) : n \in RTNames, m \in RTNames}
+                \cup UNION {Plain("text-in-call", Doc(G!Blk("para", G!Wrap(w, RTItems[n])))) : n \in RTNames, w \in {"T", "N", "P", "A", "B", "H", "L", "E"}}
+    [] k = 10 -> UNION {Variants("empty", Doc(G!Blk(w, <<e>>))) : e \in G!EmptyCalls, w \in {"para", "ul", "cell"}}
+Cases(z) == IF Tier = "Q" THEN {c \in CasesQ(z) : Size(c) % Parts = Part}
+            ELSE UNION {FamT(k) : k \in {j \in 1..NFam : j % Parts = Part}}
+
+(* ---------------- generator ---------------- *)
+VARIABLES case, done
+Init == case \in Cases(0) /\ done = FALSE
 Next == ~done /\ done' = TRUE /\ UNCHANGED case
 Spec == Init /\ [][Next]_<<case, done>>
 
